@@ -87,7 +87,7 @@ def run(ctx):
     # ---- leg T
     trt = os.path.join(ctx.work, "c06_trace_t.ndjson")
     rc, out, _ = ctx.gotest("kernel", "mm/vmm", HARNESS, "TestVerifC06Random",
-                            env={"TRACE_OUT": trt, "NTRACES": 400 if q else 8000, "VERIF_LEG": "T-random"}, timeout=900)
+                            env={"TRACE_OUT": trt, "NTRACES": 400 if q else 6000, "VERIF_LEG": "T-random"}, timeout=900)
     if rc != 0:
         raise vlib.Broken("C06 random harness failed:\n" + out[-3000:])
     # ---- leg V
@@ -96,7 +96,29 @@ def run(ctx):
         for p in (trg, trt):
             with open(p) as g:
                 f.write(g.read())
-    acc, nev, mism = ctx.validate_traces("CoWTrace", "CoWTrace", tra, ("vmm",), name="V-G+T", parallel=4 if q else 16, timeout=1500)
+    mism = []
+    if q:
+        acc, nev, mism = ctx.validate_traces("CoWTrace", "CoWTrace", tra, ("vmm",), name="V-G+T", parallel=4, timeout=1500)
+    else:
+        # thorough: several hundred thousand events; validate in slices so that no TLC process has to hold too many of them
+        lines = open(tra).readlines()
+        ends = [i + 1 for i, l in enumerate(lines) if l.startswith('{"k":"reset"')]
+        nslice = max(1, len(lines) // 300000 + 1)
+        cut, prev = [], 0
+        for k in range(1, nslice + 1):
+            tgt = len(lines) * k // nslice
+            e = next((x for x in ends if x >= tgt), len(lines))
+            if e > prev:
+                cut.append((prev, e))
+                prev = e
+        for n, (a, b) in enumerate(cut):
+            sp = os.path.join(ctx.work, "c06_slice%d.ndjson" % n)
+            with open(sp, "w") as f:
+                f.writelines(lines[a:b])
+            acc, nev, mm_ = ctx.validate_traces("CoWTrace", "CoWTrace", sp, ("vmm",), name="V-G+T/%d" % n, parallel=12, timeout=1500)
+            mism += mm_
+            os.remove(sp)
+        del lines
     record(ctx, tra)
     seen = {}
     for m in mism:
